@@ -72,6 +72,14 @@ func runC03(t *testing.T, rc *core.RunCtx) {
 			burst = append(burst, bo)
 		}
 	}
+	// half of the queue-limit runs start with an error: the limit must hold
+	// for a machine that is in Exception too (one pending Exception excepted)
+	if variant == "qlimit" && rc.Plan.Draw(2) == 0 && len(p.tasks) > 0 {
+		hc := cfg
+		hc.menu = []opKind{opAddErr}
+		eo := genOp(rc.Plan, &hc, p.names, "e0")
+		p.tasks[0] = append([]mwOp{eo}, p.tasks[0]...)
+	}
 	if variant == "backoff" {
 		p.hb = []int{hbStallLong}
 	}
@@ -350,6 +358,9 @@ func runC03(t *testing.T, rc *core.RunCtx) {
 			exc := has(br.op.states, am.StateException)
 			if over && !exc {
 				s.Probe("queue-limit-hit")
+				if br.isErr {
+					s.Probe("queue-limit-hit-while-erroring")
+				}
 				if br.res != am.Canceled {
 					s.Fail("C03/queue-limit", "%s issued with %d queued (limit %d) returned %v", br.op, br.qlen, qlimit, br.res)
 				} else if tx := byOp(br.op.id); tx != nil {
